@@ -362,4 +362,41 @@ theorem holdsLoop_model (cs : Consts) (c : Case) (sel : Selection)
           rw [← h6]
           exact conf_of_scripted cs c (1 + j') a' sig m.sender m hs rfl h2 h5 (by rw [h6]; exact h7)⟩
 
+/-! ## C36: what the heartbeat's inactivity claim is built from -/
+
+theorem mem_unready (c : Case) (ready : List Nat) (m : Nat) :
+    m ∈ unready c ready ↔ 1 ≤ m ∧ m ≤ c.n ∧ m ∉ ready := by
+  unfold unready wallet
+  simp only [List.mem_filter, List.mem_range'_1, Bool.not_eq_true', List.contains_eq_mem,
+    decide_eq_false_iff_not]
+  constructor
+  · rintro ⟨⟨h1, h2⟩, h3⟩; exact ⟨h1, by omega, h3⟩
+  · rintro ⟨h1, h2, h3⟩; exact ⟨⟨h1, by omega⟩, h3⟩
+
+/-- **claim_names_exactly_wallet_members_not_ready**: for every script, every selection function,
+    every wallet size `n` and every configured `GroupSize` (`c.gs`, which may exceed `n`): the
+    activity report of a successful signing — from which `heartbeatAction.execute` takes the members
+    of its inactivity claim (`C36.claim_only_on_low`: the claim carries exactly
+    `activityReport.inactiveMembers`) — names as active exactly the members that announced
+    readiness in the deciding attempt and as inactive exactly the members `1..n` of the WALLET that
+    did not; nobody beyond the wallet size is ever named, whatever `GroupSize` is. -/
+theorem claim_names_exactly_wallet_members_not_ready (cs : Consts) (c : Case) (sel : Selection)
+    (ls : List Listen) (sig eb tb : Nat) (act inact : List Nat)
+    (h : run cs c sel = (ls, .ok sig eb tb act inact)) :
+    ∃ j a, c.attempts[j]? = some a ∧
+      ls.getLast? = some ⟨1 + j, sel (1 + j) a.ready, protoTimeout cs c (1 + j)⟩ ∧
+      act = a.ready ∧ ∀ m, m ∈ inact ↔ 1 ≤ m ∧ m ≤ c.n ∧ m ∉ a.ready := by
+  obtain ⟨j, a, msgs, e1, _, _, e4, e5, e6⟩ := runFrom_ok cs c sel c.attempts 1 ls sig eb tb act inact h
+  exact ⟨j, a, e1, e6, e4, fun m => by rw [e5]; exact mem_unready c a.ready m⟩
+
+/-- the report does not depend on the configured group size at all -/
+theorem report_independent_of_group_size (cs : Consts) (c : Case) (sel : Selection) (gs' : Nat) :
+    run cs { c with gs := gs' } sel = run cs c sel := by
+  have : ∀ as k, runFrom cs { c with gs := gs' } sel k as = runFrom cs c sel k as := by
+    intro as
+    induction as with
+    | nil => intro k; rfl
+    | cons a rest ih => intro k; simp only [runFrom, ih]; rfl
+  exact this _ _
+
 end KeepVerif.C35Loop
